@@ -1,6 +1,8 @@
 package render
 
 import (
+	"sync"
+
 	"github.com/osteele/liquid/parser"
 )
 
@@ -10,6 +12,10 @@ type Config struct {
 	grammar
 	Cache           map[string][]byte
 	StrictVariables bool
+
+	// cacheMu guards Cache: templates may be cached while others are parsed and rendered.
+	// (A pointer, because a Config is copied into every render.)
+	cacheMu *sync.RWMutex
 }
 
 type grammar struct {
@@ -23,5 +29,21 @@ func NewConfig() Config {
 		tags:      map[string]TagCompiler{},
 		blockDefs: map[string]*blockSyntax{},
 	}
-	return Config{Config: parser.NewConfig(g), grammar: g, Cache: map[string][]byte{}}
+	return Config{Config: parser.NewConfig(g), grammar: g, Cache: map[string][]byte{}, cacheMu: &sync.RWMutex{}}
+}
+
+// CacheSource records source as the template that {% include %} finds at path when there is no
+// such file. It may be called while other goroutines parse and render.
+func (c Config) CacheSource(path string, source []byte) {
+	c.cacheMu.Lock()
+	defer c.cacheMu.Unlock()
+	c.Cache[path] = source
+}
+
+// cachedSource returns the template source cached for path.
+func (c Config) cachedSource(path string) ([]byte, bool) {
+	c.cacheMu.RLock()
+	defer c.cacheMu.RUnlock()
+	source, ok := c.Cache[path]
+	return source, ok
 }
